@@ -9,10 +9,9 @@ RULE = ("after a valid handshake: ALL byte strings of length <= 4 (quick) / 5 (t
         "flipped parameter counts, unknown type codes 0..255, inconsistent NULL bitmaps, out-of-order fragment ids); malformed "
         "handshakes (every truncation of a valid response, random bytes); random byte streams; outcome must be a conformant "
         "reply or an error return -- never a panic or a hang; non-trivial = not a fully valid conversation; distinct = distinct case text")
-ASSUMPTIONS = ["shim callbacks return", "known findings (listed in known_findings.json) are reported, not raised"]
+ASSUMPTIONS = ["shim callbacks return and do not panic by themselves (no From<Value> conversion of a mistyped parameter, defined error kinds)"]
 
-KNOWN_PANIC_KEYS = {"panic ParamsSplit": "panic:ParamsSplit", "panic ParamsBadType": "panic:ParamsBadType",
-                    "panic ParamsBoundIndex": "panic:ParamsBoundIndex", "panic ParamsValue": "panic:ParamsValue"}
+KNOWN_PANIC_KEYS = {}      # no known findings left: D9 and D14 have been repaired
 
 
 def raw_case(cid, raw, lim=U24_MAX, scripts=()):
